@@ -1527,7 +1527,7 @@ def vm_crosscheck(ctx, sample):
     single-point-of-trust position.  -> (requests, disagreements, first disagreeing request or None)"""
     import re
     body = _XC_PRELUDE + "".join("Eval vm_compute in (%s).\n" % _xc_term(l) for l, _ in sample)
-    out = coq_eval(ctx["verif"], "C18", "crosscheck", body, timeout=120)
+    out = coq_eval(ctx["verif"], "C18", "crosscheck", body, timeout=600)
     blocks = out.split("= ")[1:]
     bad, first = abs(len(blocks) - len(sample)), None
     for blk, (l, a) in zip(blocks, sample):
